@@ -275,6 +275,42 @@ fn proof_prog<G: CurveTag>(prog: crate::program::Program, col: &mut Collector, p
             n_crafted += 1;
         }
     }
+    // whatever decodes re-encodes to the bytes it was decoded from — also encodings whose two lists
+    // have different lengths (they are well-formed; it is verification that refuses them)
+    for (name, dl, dr) in [("L one longer", 1usize, 0usize), ("R one longer", 0, 1), ("L three longer", 3, 0), ("R empty", 0, usize::MAX), ("L empty", usize::MAX, 0)] {
+        let mut m2 = mirror.clone();
+        let filler = mirror.A_I1;
+        if dl == usize::MAX {
+            m2.ipp.L.clear();
+        } else {
+            for _ in 0..dl {
+                m2.ipp.L.push(filler);
+            }
+        }
+        if dr == usize::MAX {
+            m2.ipp.R.clear();
+        } else {
+            for _ in 0..dr {
+                m2.ipp.R.push(filler);
+            }
+        }
+        if m2.ipp.L.len() == m2.ipp.R.len() {
+            continue;
+        }
+        let b2 = m2.to_bytes();
+        let back = guarded(|| R1CSProof::<G>::from_bytes(&b2).ok().map(|p| (p.to_bytes().ok(), { let mut c = vec![]; let _ = ark_serialize::CanonicalSerialize::serialize_compressed(&p, &mut c); c })));
+        match back {
+            Err(pn) => return Err(Failure::new("C11:roundtrip-panic", format!("decoding / re-encoding an encoding with {} panicked: {}", name, pn), pj())),
+            Ok(None) => {}
+            Ok(Some((tb, sc))) => {
+                col.evals_add(1);
+                if tb.as_ref() != Some(&b2) || sc != b2 {
+                    return Err(Failure::new("C11:roundtrip:unequal-lists", format!("an encoding with {} decodes, but the decoded proof does not re-encode to the same bytes (to_bytes: {:?} bytes, serialize_compressed: {} bytes, original: {} bytes)", name, tb.map(|t| t.len()), sc.len(), b2.len()), json!({"program": prog.to_json(), "lists": name, "encoding_hex": hex::encode(&b2)})));
+                }
+            }
+        }
+    }
+    col.class("roundtrip:unequal-lists");
     // the two list counts: anything but the true count is a format error (never a panic, never an
     // attempt to reserve what the count claims)
     for (which, off) in [("L", 11 * G::PT + 3 * G::SC), ("R", 11 * G::PT + 3 * G::SC + 8 + k * G::PT)] {
